@@ -85,6 +85,7 @@ func (b *v14Body) bytes() []byte {
 // v14Checker verifies a byte stream against a v14Body in order.
 type v14Checker struct {
 	b       *v14Body
+	raw     []byte // when non-nil the expected bytes are these, not b
 	off     int64
 	badAt   int64 // first differing offset, -1 none
 	gotByte byte
@@ -97,17 +98,22 @@ func v14NewChecker(b *v14Body) *v14Checker { return &v14Checker{b: b, badAt: -1}
 func (k *v14Checker) feed(p []byte) {
 	if k.badAt < 0 && len(p) > 0 {
 		n := int64(len(p))
-		if k.off+n > k.b.Len {
-			n = k.b.Len - k.off
+		if k.off+n > k.want() {
+			n = k.want() - k.off
 			if n < 0 {
 				n = 0
 			}
 		}
-		if int64(cap(k.scratch)) < n {
-			k.scratch = make([]byte, n)
+		var exp []byte
+		if k.raw != nil {
+			exp = k.raw[k.off : k.off+n]
+		} else {
+			if int64(cap(k.scratch)) < n {
+				k.scratch = make([]byte, n)
+			}
+			exp = k.scratch[:n]
+			k.b.fill(k.off, exp)
 		}
-		exp := k.scratch[:n]
-		k.b.fill(k.off, exp)
 		for i := range exp {
 			if exp[i] != p[i] {
 				k.badAt, k.gotByte, k.expByte = k.off+int64(i), p[i], exp[i]
@@ -118,13 +124,20 @@ func (k *v14Checker) feed(p []byte) {
 	k.off += int64(len(p))
 }
 
+func (k *v14Checker) want() int64 {
+	if k.raw != nil {
+		return int64(len(k.raw))
+	}
+	return k.b.Len
+}
+
 // result: "" when the stream was exactly the body.
 func (k *v14Checker) result() string {
 	switch {
 	case k.badAt >= 0:
-		return fmt.Sprintf("byte at offset %d is 0x%02x, expected 0x%02x (body of %d bytes, %d received)", k.badAt, k.gotByte, k.expByte, k.b.Len, k.off)
-	case k.off != k.b.Len:
-		return fmt.Sprintf("%d bytes received, %d sent", k.off, k.b.Len)
+		return fmt.Sprintf("byte at offset %d is 0x%02x, expected 0x%02x (body of %d bytes, %d received)", k.badAt, k.gotByte, k.expByte, k.want(), k.off)
+	case k.off != k.want():
+		return fmt.Sprintf("%d bytes received, %d sent", k.off, k.want())
 	}
 	return ""
 }
@@ -170,8 +183,13 @@ type v14Addr string
 func (a v14Addr) Network() string { return "v14" }
 func (a v14Addr) String() string  { return string(a) }
 
-// v14Pipe is a bidirectional in-memory byte pipe with a bounded buffer per direction.
-// Direction 0 is client→server, 1 is server→client.
+// v14Pipe is a bidirectional in-memory byte pipe with a bounded buffer per direction
+// (capacity <= 0: unbounded). Direction 0 is client→server, 1 is server→client.
+//
+// Inside a synctest bubble the capacities are unbounded: the Transport holds its write mutex
+// while it is inside conn.Write, and a goroutine waiting for a sync.Mutex is not durably
+// blocked, so a peer that stops reading (any connection error) would make synctest.Wait and
+// the virtual clock hang for good. Back-pressure is exercised in the real-time mode.
 type v14Pipe struct {
 	mu       sync.Mutex
 	cond     *sync.Cond
@@ -245,7 +263,7 @@ func (e *v14End) Write(b []byte) (int, error) {
 			return total, io.ErrClosedPipe
 		}
 		space := p.cap[d] - len(p.buf[d])
-		if d == 1 && p.hold {
+		if (d == 1 && p.hold) || p.cap[d] <= 0 {
 			space = len(b)
 		}
 		if space <= 0 {
